@@ -15,6 +15,25 @@ Theorem C03a_uri_preserved : forall ops t q,
 Proof. exact uri_preserved. Qed.
 Print Assumptions C03a_uri_preserved.
 
+(* (a') a full URI given as a string or an Identifier (the spelling every reader of RDF and every
+   caller holding a URI uses): when the text before its first colon — its scheme — is not a prefix
+   the manager knows, the qualified name found has exactly that URI, whatever the URI holds after
+   the namespace it was compacted with *)
+Theorem C03a_uri_string_preserved : forall m s b p l q,
+  split_colon s = Some (p, l) -> lookup p (tbl m) = None -> lookup p (prenmap m) = None ->
+  resolve_str1 m s b = SFound q -> qn_uri q = s.
+Proof. exact compaction_preserves_uri. Qed.
+Print Assumptions C03a_uri_string_preserved.
+
+(* the premise on the scheme cannot be dropped: with a namespace declared under the prefix "http"
+   the URI is read as prefix:local (a consequence recorded as finding C07-F3 where it bites) *)
+Lemma C03a_scheme_prefix_refuted :
+  exists m q, resolve_str1 m "http://example.org/e" false = SFound q /\ qn_uri q <> "http://example.org/e".
+Proof.
+  exists (match add_namespace nsm_init (mkNs "http" "http://www.w3.org/2011/http#") with Some (m, _) => m | None => nsm_init end).
+  eexists. split; [vm_compute; reflexivity | vm_compute; discriminate].
+Qed.
+
 (* (b) a registered (non-default) prefix is never re-pointed, by any operation on
    any container of the scope *)
 Theorem C03b_prefix_stable : forall s o t m p v,
